@@ -6,12 +6,16 @@
   independent walk `ConstOnNode` / `WorldOnNode` over the nodes actually stored — not the cached
   `consts` / `worlds` fields; `C06_cache_exact` then ties the cached fields to the walk.
 
-  The clause "every rule that introduces a witness uses such a fresh item" is about the rule
-  implementations (they call `branch.new_constant()` / `branch.new_world()`); it is checked as a
-  correspondence/oracle stream over real proofs in all registered logics (harness/props/c06.py),
-  not stated in Lean here.
+  The clause "every rule that introduces a witness uses such a fresh item": in the calculus model
+  a step of a witness rule is LEGAL only with a fresh item — `C06_witness_step_fresh` (new-constant
+  and new-world rule rows of the regenerated tables) and `C06_serial_step_fresh`, lifted to whole
+  step sequences by `C06_witness_replay_fresh`.  Every step of every real proof of the sweeps is
+  replayed through `applyStep` (C01/C02/C09 whole-proof replay), which rows are witness rows is
+  regenerated from the running rules, and harness/props/c06.py additionally compares each real
+  witness with what the branch offered (`new_constant()` / `new_world()`) just before the step.
 -/
 import Ptx.Proofs.TabBranch
+import Ptx.Tab.Calculus
 namespace Ptx.Props.C06
 open Ptx Ptx.Tab
 
@@ -95,5 +99,161 @@ theorem legacy_rule_not_fresh :
   intro h
   refine h.1 (.sent (.pred ⟨0, 0, 1⟩ [.const 1 0]) none none) (by decide) ?_
   exact ConstOccurs.pred _ _ (by decide)
+
+/-! ### witness rules use a fresh item -/
+
+/-- A legal step of a rule row of witness kind "new constant" (existential-type quantifier rows)
+    carries a constant that occurs in no sentence on the branch; one of kind "new world"
+    (possibility-type modal rows) a world that labels no node on it. -/
+theorem C06_witness_step_fresh (L : LogicData) (t t' : Tableau) (bi n : Nat) (c : Option (Nat × Nat))
+    (wo : Option Nat) (b : Branch) (hb : t[bi]? = some b)
+    (h : applyStep L t (.rule bi n c wo) = some t') :
+    ∃ s d w r gs, b.nodes[n]? = some (.sent s d w) ∧ L.ruleGroups b s d w c wo = some (r, gs) ∧
+      (r.witness = .newConst → ∃ k, c = some k ∧ b.consts.contains k = false) ∧
+      (r.witness = .newWorld → ∃ w', wo = some w' ∧ b.worlds.contains w' = false) := by
+  simp only [applyStep, Step.branch, hb] at h
+  split at h
+  · cases h
+  · simp only [applyAt] at h
+    split at h
+    · next s d w hn =>
+      split at h
+      · next r g0 rest hg =>
+        refine ⟨s, d, w, r, g0 :: rest, hn, hg, ?_, ?_⟩
+        · intro hw
+          simp only [LogicData.ruleGroups] at hg
+          split at hg
+          · cases hg
+          · split at hg
+            · split at hg
+              · cases hg
+              · split at hg
+                · next gs hwg =>
+                  simp only [Option.some.injEq, Prod.mk.injEq] at hg
+                  obtain ⟨rfl, _⟩ := hg
+                  simp only [witnessGroups, hw] at hwg
+                  split at hwg
+                  · next ci cs =>
+                    split at hwg
+                    · cases hwg
+                    · next hc =>
+                      refine ⟨(ci, cs), rfl, ?_⟩
+                      simp only [Bool.or_eq_true, not_or, Bool.not_eq_true] at hc
+                      exact hc.1
+                  · cases hwg
+                · cases hg
+            · cases hg
+        · intro hw
+          simp only [LogicData.ruleGroups] at hg
+          split at hg
+          · cases hg
+          · split at hg
+            · split at hg
+              · cases hg
+              · split at hg
+                · next gs hwg =>
+                  simp only [Option.some.injEq, Prod.mk.injEq] at hg
+                  obtain ⟨rfl, _⟩ := hg
+                  simp only [witnessGroups, hw] at hwg
+                  split at hwg
+                  · split at hwg
+                    · cases hwg
+                    · next hc =>
+                      refine ⟨_, rfl, ?_⟩
+                      simp only [Bool.or_eq_true, not_or, Bool.not_eq_true] at hc
+                      exact hc.1
+                  · cases hwg
+                · cases hg
+            · cases hg
+      · cases h
+    · cases h
+
+/-- non-vacuity: a modal mini-logic with the possibility rule and an existential rule as the
+    extractor writes them: the step with a fresh world / constant is legal, the same step with a
+    world / constant already on the branch is not -/
+def miniW : LogicData :=
+  { (default : LogicData) with
+    modal := true, quantified := true, frameRules := ["Serial"],
+    rules := [(⟨.op1 .poss, false, none⟩, ⟨"Possibility", true, .newWorld, [[.node ⟨.lhs, none, true⟩, .access]]⟩),
+              (⟨.quant .ex, false, none⟩, ⟨"Existential", true, .newConst, [[.node ⟨.lhs, none, false⟩]]⟩)] }
+
+example :
+    let F (x : Param) : Sent := .pred ⟨0, 0, 1⟩ [x]
+    let t : Tableau := [{ nodes := [.sent (.op1 .poss (.atom 0 0)) none (some 0),
+                                    .sent (.quant .ex 0 0 (F (.var 0 0))) none (some 0),
+                                    .sent (F (.const 1 0)) none (some 0)] }]
+    (applyStep miniW t (.rule 0 0 none (some 1))).isSome = true ∧
+    (applyStep miniW t (.rule 0 0 none (some 0))).isSome = false ∧
+    (applyStep miniW t (.rule 0 1 (some (0, 0)) none)).isSome = true ∧
+    (applyStep miniW t (.rule 0 1 (some (1, 0)) none)).isSome = false ∧
+    (applyStep miniW t (.frame 0 .serial 0 1 0)).isSome = true ∧
+    (applyStep miniW t (.frame 0 .serial 0 0 0)).isSome = false := by decide
+
+/-- The serial rule: a legal step adds an arrow into a world that labels no node on the branch. -/
+theorem C06_serial_step_fresh (L : LogicData) (t t' : Tableau) (bi w1 w2 w3 : Nat) (b : Branch)
+    (hb : t[bi]? = some b) (h : applyStep L t (.frame bi .serial w1 w2 w3) = some t') :
+    b.worlds.contains w2 = false ∧ b.worlds.contains w1 = true := by
+  simp only [applyStep, Step.branch, hb] at h
+  split at h
+  · cases h
+  · simp only [applyAt] at h
+    split at h
+    · cases h
+    · split at h
+      · next nd hfa =>
+        simp only [frameAdd] at hfa
+        split at hfa
+        · next hc =>
+          simp only [Bool.and_eq_true, Bool.not_eq_true'] at hc
+          exact ⟨hc.2, hc.1⟩
+        · cases hfa
+      · cases h
+
+/-- the freshness requirement of one step against the branch it is applied to -/
+def StepFresh (L : LogicData) (t : Tableau) : Step → Prop
+  | .rule bi n c wo => ∀ b, t[bi]? = some b → ∀ s d w r gs, b.nodes[n]? = some (.sent s d w) →
+      L.ruleGroups b s d w c wo = some (r, gs) →
+      (r.witness = .newConst → ∃ k, c = some k ∧ b.consts.contains k = false) ∧
+      (r.witness = .newWorld → ∃ w', wo = some w' ∧ b.worlds.contains w' = false)
+  | .frame bi .serial _ w2 _ => ∀ b, t[bi]? = some b → b.worlds.contains w2 = false
+  | _ => True
+
+/-- Every step of every accepted step sequence (any options, any order, build or step) that
+    introduces a witness uses an item fresh for the branch AS IT IS AT THAT MOMENT. -/
+theorem C06_witness_replay_fresh (L : LogicData) : ∀ (steps : List Step) (t t' : Tableau),
+    replay L t steps = some t' →
+    ∀ k (hk : k < steps.length), ∃ tk, replay L t (steps.take k) = some tk ∧ StepFresh L tk steps[k]
+  | [], _, _, _, k, hk => by simp at hk
+  | s :: ss, t, t', h, k, hk => by
+    simp only [replay] at h
+    cases hs : applyStep L t s with
+    | none => simp [hs] at h
+    | some t1 =>
+      simp only [hs, Option.bind_some] at h
+      cases k with
+      | zero =>
+        refine ⟨t, by simp [replay], ?_⟩
+        simp only [List.getElem_cons_zero]
+        cases s with
+        | rule bi n c wo =>
+          intro b hb s' d w r gs hn hg
+          obtain ⟨s2, d2, w2, r2, gs2, hn2, hg2, h1, h2⟩ := C06_witness_step_fresh L t t1 bi n c wo b hb hs
+          rw [hn] at hn2
+          simp only [Option.some.injEq, Node.sent.injEq] at hn2
+          obtain ⟨rfl, rfl, rfl⟩ := hn2
+          rw [hg] at hg2
+          simp only [Option.some.injEq, Prod.mk.injEq] at hg2
+          obtain ⟨rfl, _⟩ := hg2
+          exact ⟨h1, h2⟩
+        | frame bi r w1 w2 w3 =>
+          cases r with
+          | serial => intro b hb; exact (C06_serial_step_fresh L t t1 bi w1 w2 w3 b hb hs).1
+          | _ => trivial
+        | _ => trivial
+      | succ k =>
+        obtain ⟨tk, htk, hf⟩ := C06_witness_replay_fresh L ss t1 t' h k (by simpa using hk)
+        refine ⟨tk, ?_, ?_⟩
+        · simp [replay, hs, htk]
+        · simpa using hf
 
 end Ptx.Props.C06
